@@ -60,6 +60,51 @@ def gen(rng, tier):
         z = C01.recv(rng, prec=p)
         shape = rng.choice(SHAPES)
         yield dict(family="fma-finite", vars=[z, x, y, u], ops=["FMA " + shape])
+    # rounding boundary of the exact product with the deciding information far away: the product continues with
+    # 4 9...9 d / 5 0...0 d / 9...9 / 0...0 d after the receiver's last digit (runs of 17-60 digits) and u is tiny,
+    # of either sign, far below the product
+    for _ in range(200 * n):
+        p = rng.choice([1, 2, 5, 16, 18, 19, 20, 34, 38])
+        head = common.rand_coeff(rng, p)
+        head = head * 10 ** (p - ndigits(head))
+        k = rng.choice([17, 18, 19, 20, 36, 37, 38, 39, 40, 57, 60])
+        tail = rng.choice(["4" + "9" * k, "5" + "0" * k, "0" + "0" * k, "9" + "9" * k, "4" + "9" * k + "5", "5" + "0" * k + "1", "0" * (k + 1) + "3"])
+        yv = int(str(head) + tail)
+        f = rng.choice([1, 1, 1, 2, 4, 5, 8, 25])
+        if yv % f == 0 and rng.random() < 0.5:
+            a, b = f, yv // f                        # the same product through two factors
+        else:
+            a, b = 1, yv
+        ea, eb = rng.randint(-20, 20), rng.randint(-20, 20)
+        cu = rng.choice([1, 1, 3, 7, common.rand_coeff(rng, 5)])
+        ec = ea + eb - rng.choice([1, 5, 30, 60, 100, 200])
+        x = fin(a, ea, neg=rng.randint(0, 1), mode=rng.randint(0, 5))
+        y = fin(b, eb, neg=rng.randint(0, 1), mode=rng.randint(0, 5), pad=rng.choice([0, 1]))
+        u = fin(cu, ec, neg=rng.randint(0, 1), mode=rng.randint(0, 5))
+        z = C01.recv(rng, prec=p, mode=rng.choice([0, 0, 1, 1, 2, 3, 4, 5]))
+        yield dict(family="fma-far-sticky", vars=[z, x, y, u], ops=["FMA " + rng.choice(["0 1 2 3", "0 1 2 3", "0 2 1 3", "3 1 2 3"])])
+    # products at the ends of the exponent range that are still representable (mantissa product below / above 0.1),
+    # with a small non-zero addend; just inside and just outside
+    for _ in range(120 * n):
+        MINE, MAXE = -2**31, 2**31 - 1
+        a, b = rng.choice([2, 3, 11, 25, 31, 99, 101, common.rand_coeff(rng, 8)]), rng.choice([3, 4, 5, 9, 32, 99, common.rand_coeff(rng, 8)])
+        na, nb, npd = ndigits(a), ndigits(b), ndigits(a * b)
+        carry = npd - (na + nb)                       # -1: mantissa product < 0.1, 0: >= 0.1
+        top = rng.random() < 0.5
+        tgt = (MAXE if top else MINE) + rng.choice([0, 0, 1, -1, 2, -2])          # wanted decimal exponent of the exact product
+        # exp(x) + exp(y) + carry = tgt, both factors' exponents inside the range
+        exx = rng.randint(-1000, 1000) + (tgt // 2)
+        exy = tgt - carry - exx
+        if not (MINE <= exx <= MAXE and MINE <= exy <= MAXE):
+            continue
+        x = fin(a, exx - na, neg=rng.randint(0, 1), mode=rng.randint(0, 5))
+        y = fin(b, exy - nb, neg=rng.randint(0, 1), mode=rng.randint(0, 5))
+        eu = max(MINE, min(MAXE, tgt - rng.choice([0, 1, 3, 10, 40])))
+        cu = rng.choice([1, 5, 9, 123])
+        u = fin(cu, eu - ndigits(cu), neg=rng.randint(0, 1))
+        inside = MINE <= tgt <= MAXE
+        z = C01.recv(rng, prec=rng.choice([1, 3, 10, 34]), mode=rng.randint(0, 5))
+        yield dict(family="fma-product-at-range-edge" if inside else "product-exponent-out-of-range", vars=[z, x, y, u], ops=["FMA 0 1 2 3"])
     for _ in range(150 * n):
         # FMA vs Mul then Add: both computed, compared by the judge
         p = rng.choice([1, 2, 5, 16, 19, 34])
@@ -152,7 +197,11 @@ def match_known(f, case, what, go_line, model_line):
             continue
         x, y = case["vars"][int(t[2])], case["vars"][int(t[3])]
         if x.form == 1 and y.form == 1:
-            e = x.exp + y.exp
-            if e - 1 > 2**31 - 1 or e < -2**31:
+            # exact decimal exponent of the product: exp x + exp y, minus one if the mantissa product is below 0.1
+            A = sum(w * B ** i for i, w in enumerate(x.words))
+            Bv = sum(w * B ** i for i, w in enumerate(y.words))
+            small = A * Bv * 10 < 10 ** (19 * (len(x.words) + len(y.words)))
+            e = x.exp + y.exp - (1 if small else 0)
+            if e > 2**31 - 1 or e < -2**31:
                 return True
     return False
